@@ -20,6 +20,9 @@ CONSTANTS Threads,     \* logical frontend threads (strings)
           MaxTime,     \* bound on the virtual clock (state-space bound)
           AllowExit,   \* threads may exit
           ReportOnRemove, \* TRUE iff a context's drop counter is reported before the context is removed (EXTRACTED)
+          Loggers,     \* logger names (all write to the one sink); a statement carries its logger
+          AllowRemove, \* remove_logger() may be called (C17)
+          RecheckOnRemove, \* TRUE iff the logger clean-up re-checks "all queues empty" for every logger it frees (EXTRACTED)
           Export
 VARIABLES now,
           fpc, cur, nlog, nflush, need, flag,       \* frontend, per thread
@@ -28,13 +31,16 @@ VARIABLES now,
           cache, ring,                              \* backend: context cache (sequence), per-thread transit ring (records)
           bpc, bi, tsNow, batchMode, lastIdle, flushWho, \* backend program counter
           written, flushedTo,                       \* the sink: records written, prefix covered by a flush
+          lgValid, lgPresent, hasInval, acc,        \* logger registry: valid flag, still registered, invalidated-loggers flag; accepted ids
           nid, dropped, reported, anyLate, bad, hist
 
 vars == <<now, fpc, cur, nlog, nflush, need, flag, q, wpos, rpos, rpub, fail, valid, reg, ctxs, newFlag, invalidCnt,
-          cache, ring, bpc, bi, tsNow, batchMode, lastIdle, flushWho, written, flushedTo, nid, dropped, reported, anyLate, bad, hist>>
+          cache, ring, bpc, bi, tsNow, batchMode, lastIdle, flushWho, written, flushedTo, lgValid, lgPresent, hasInval, acc,
+          nid, dropped, reported, anyLate, bad, hist>>
 Inf == 1000000
+LgVars == <<lgValid, lgPresent, hasInval>>
 Range(s) == {s[i] : i \in 1..Len(s)}
-NoRec == [id |-> 0, t |-> "", sz |-> 0, ts |-> 0, kind |-> "none"]
+NoRec == [id |-> 0, t |-> "", sz |-> 0, ts |-> 0, kind |-> "none", lg |-> ""]
 
 Init ==
   /\ now = 0
@@ -44,6 +50,7 @@ Init ==
   /\ fail = [t \in Threads |-> 0] /\ valid = [t \in Threads |-> TRUE] /\ reg = [t \in Threads |-> FALSE]
   /\ ctxs = <<>> /\ newFlag = FALSE /\ invalidCnt = 0 /\ cache = <<>> /\ ring = [t \in Threads |-> <<>>]
   /\ bpc = "start" /\ bi = 1 /\ tsNow = Inf /\ batchMode = FALSE /\ lastIdle = FALSE /\ flushWho = ""
+  /\ lgValid = [l \in Loggers |-> TRUE] /\ lgPresent = [l \in Loggers |-> TRUE] /\ hasInval = FALSE /\ acc = {}
   /\ written = <<>> /\ flushedTo = 0 /\ nid = 0 /\ dropped = {} /\ reported = 0 /\ anyLate = FALSE /\ bad = "" /\ hist = <<>>
 
 RECURSIVE SumFailR(_, _)
@@ -60,14 +67,15 @@ Free(t) == Cap - (wpos[t] - rpub[t])
 Fits(t, sz) == ~Bounded \/ Free(t) >= sz
 
 \* first half of a log call: level check passed, clock read (every read advances the clock), context registered
-LogStart(t, sz) ==
-  /\ fpc[t] = "idle" /\ nlog[t] < NStmt /\ now < MaxTime
+LogStart(t, sz, l) ==
+  /\ UNCHANGED LgVars /\ UNCHANGED acc
+  /\ fpc[t] = "idle" /\ nlog[t] < NStmt /\ now < MaxTime /\ lgValid[l]
   /\ now' = now + 1 /\ nid' = nid + 1
-  /\ cur' = [cur EXCEPT ![t] = [id |-> nid + 1, t |-> t, sz |-> sz, ts |-> now + 1, kind |-> "log"]]
+  /\ cur' = [cur EXCEPT ![t] = [id |-> nid + 1, t |-> t, sz |-> sz, ts |-> now + 1, kind |-> "log", lg |-> l]]
   /\ fpc' = [fpc EXCEPT ![t] = "ts"] /\ nlog' = [nlog EXCEPT ![t] = @ + 1]
   /\ UNCHANGED <<reg, ctxs, newFlag, nflush, need, flag, q, wpos, rpos, rpub, fail, valid, invalidCnt, cache, ring, bpc, bi, tsNow, batchMode, lastIdle, flushWho,
                  written, flushedTo, dropped, reported, anyLate, bad>>
-  /\ Step(t, "logstart", <<sz>>, <<[k |-> "logcall", t |-> t, id |-> nid + 1, lg |-> "L0", lvl |-> 4, kind |-> "direct"],
+  /\ Step(t, "logstart", <<sz, l>>, <<[k |-> "logcall", t |-> t, id |-> nid + 1, lg |-> l, lvl |-> 4, kind |-> "direct"],
                                    [k |-> "ts", t |-> t, now |-> now + 1]>>)
 
 \* second half: reserve + encode + commit, or refusal (dropping: return false; blocking: park in the retry sleep)
@@ -75,6 +83,7 @@ TryEnqueue(t, act) ==
   LET r == cur[t] IN
   IF Fits(t, r.sz)
   THEN /\ q' = [q EXCEPT ![t] = Append(@, r)] /\ wpos' = [wpos EXCEPT ![t] = @ + r.sz]
+       /\ acc' = IF r.kind = "log" THEN acc \cup {r.id} ELSE acc
        /\ anyLate' = (anyLate \/ (Grace > 0 /\ now - r.ts > Grace))
        /\ IF r.kind = "log"
           THEN /\ fpc' = [fpc EXCEPT ![t] = "idle"] /\ cur' = [cur EXCEPT ![t] = NoRec]
@@ -84,7 +93,7 @@ TryEnqueue(t, act) ==
           ELSE /\ fpc' = [fpc EXCEPT ![t] = "flushwait"] /\ cur' = [cur EXCEPT ![t] = NoRec]
                /\ UNCHANGED <<fail, dropped>>
                /\ Step(t, act, <<>>, <<>>)
-  ELSE /\ UNCHANGED <<q, wpos, anyLate>>
+  ELSE /\ UNCHANGED <<q, wpos, anyLate, acc>>
        /\ IF r.kind = "log" /\ Dropping
           THEN /\ fail' = [fail EXCEPT ![t] = @ + 1] /\ dropped' = dropped \cup {r.id}
                /\ fpc' = [fpc EXCEPT ![t] = "idle"] /\ cur' = [cur EXCEPT ![t] = NoRec]
@@ -96,6 +105,7 @@ TryEnqueue(t, act) ==
 
 \* the thread's context is created and registered on its first call, after the clock read
 Enqueue(t) ==
+  /\ UNCHANGED LgVars
   /\ fpc[t] = "ts"
   /\ TryEnqueue(t, "enqueue")
   /\ IF reg[t] THEN UNCHANGED <<reg, ctxs, newFlag>>
@@ -104,6 +114,7 @@ Enqueue(t) ==
                  lastIdle, flushWho, written, flushedTo, nid, reported, bad>>
 
 Retry(t) ==
+  /\ UNCHANGED LgVars
   /\ fpc[t] = "blocked"
   /\ TryEnqueue(t, "retry")
   /\ UNCHANGED <<now, nlog, nflush, need, flag, rpos, rpub, valid, reg, ctxs, newFlag, invalidCnt, cache, ring, bpc, bi, tsNow, batchMode,
@@ -115,13 +126,14 @@ AllEnqueuedLog == {x.id : x \in {y \in UNION {Range(q[u]) \cup Range(ring[u]) : 
 OwnEnqueuedLog(t) == {x.id : x \in {y \in UNION {Range(q[u]) \cup Range(ring[u]) : u \in Threads} \cup Range(written) : y.kind = "log" /\ y.t = t}}
 
 FlushStart(t) ==
+  /\ UNCHANGED LgVars /\ UNCHANGED acc
   /\ fpc[t] = "idle" /\ nflush[t] < NFlush /\ now < MaxTime
   /\ now' = now + 1 /\ nid' = nid + 1 /\ nflush' = [nflush EXCEPT ![t] = @ + 1]
   /\ need' = [need EXCEPT ![t] = IF Grace > 0 THEN AllEnqueuedLog ELSE OwnEnqueuedLog(t)]
   /\ flag' = [flag EXCEPT ![t] = FALSE]
   /\ IF reg[t] THEN UNCHANGED <<reg, ctxs, newFlag>>
      ELSE reg' = [reg EXCEPT ![t] = TRUE] /\ ctxs' = Append(ctxs, t) /\ newFlag' = TRUE
-  /\ LET r == [id |-> nid + 1, t |-> t, sz |-> FlushSz, ts |-> now + 1, kind |-> "flush"] IN
+  /\ LET r == [id |-> nid + 1, t |-> t, sz |-> FlushSz, ts |-> now + 1, kind |-> "flush", lg |-> ""] IN
      IF Fits(t, FlushSz)
      THEN /\ q' = [q EXCEPT ![t] = Append(@, r)] /\ wpos' = [wpos EXCEPT ![t] = @ + FlushSz]
           /\ fpc' = [fpc EXCEPT ![t] = "flushwait"] /\ UNCHANGED cur
@@ -132,6 +144,7 @@ FlushStart(t) ==
 
 \* one iteration of the caller's wait loop
 FlushCheck(t) ==
+  /\ UNCHANGED LgVars /\ UNCHANGED acc
   /\ fpc[t] = "flushwait"
   /\ IF flag[t]
      THEN /\ fpc' = [fpc EXCEPT ![t] = "idle"]
@@ -144,13 +157,23 @@ FlushCheck(t) ==
                  bpc, bi, tsNow, batchMode, lastIdle, flushWho, written, flushedTo, nid, dropped, reported, anyLate>>
 
 ThreadExit(t) ==
+  /\ UNCHANGED LgVars /\ UNCHANGED acc
   /\ AllowExit /\ fpc[t] = "idle" /\ reg[t] /\ valid[t]
   /\ fpc' = [fpc EXCEPT ![t] = "done"] /\ valid' = [valid EXCEPT ![t] = FALSE] /\ invalidCnt' = invalidCnt + 1
   /\ UNCHANGED <<now, cur, nlog, nflush, need, flag, q, wpos, rpos, rpub, fail, reg, ctxs, newFlag, cache, ring, bpc, bi, tsNow,
                  batchMode, lastIdle, flushWho, written, flushedTo, nid, dropped, reported, anyLate, bad>>
   /\ Step(t, "exit", <<>>, <<[k |-> "threadexit", t |-> t]>>)
 
+\* remove_logger(l): invalidate and raise the flag; the user promises that no thread uses l afterwards (none is inside a call on it)
+RemoveLogger(l) ==
+  /\ AllowRemove /\ lgValid[l] /\ \A t \in Threads : cur[t].lg # l
+  /\ lgValid' = [lgValid EXCEPT ![l] = FALSE] /\ hasInval' = TRUE
+  /\ UNCHANGED <<now, fpc, cur, nlog, nflush, need, flag, q, wpos, rpos, rpub, fail, valid, reg, ctxs, newFlag, invalidCnt, cache, ring,
+                 bpc, bi, tsNow, batchMode, lastIdle, flushWho, written, flushedTo, lgPresent, acc, nid, dropped, reported, anyLate, bad>>
+  /\ Step("D", "remove", <<l>>, <<[k |-> "remove", lg |-> l]>>)
+
 Tick ==
+  /\ UNCHANGED LgVars /\ UNCHANGED acc
   /\ Grace > 0 /\ now < MaxTime /\ now' = now + 1
   /\ UNCHANGED <<fpc, cur, nlog, nflush, need, flag, q, wpos, rpos, rpub, fail, valid, reg, ctxs, newFlag, invalidCnt, cache, ring,
                  bpc, bi, tsNow, batchMode, lastIdle, flushWho, written, flushedTo, nid, dropped, reported, anyLate, bad>>
@@ -162,6 +185,7 @@ Total(rg, c) == LET f[i \in 0..Len(c)] == IF i = 0 THEN 0 ELSE f[i - 1] + Len(rg
 HasPending(c) == \E i \in 1..Len(c) : ring[c[i]] = <<>> /\ q[c[i]] # <<>>
 
 BStart ==
+  /\ UNCHANGED LgVars /\ UNCHANGED acc
   /\ bpc = "start"
   /\ cache' = Reload(cache) /\ newFlag' = FALSE
   /\ IF Grace > 0 THEN now < MaxTime /\ now' = now + 1 /\ tsNow' = now + 1 - Grace ELSE UNCHANGED now /\ tsNow' = Inf
@@ -182,6 +206,7 @@ RECURSIVE SumSz(_)
 SumSz(s) == IF s = <<>> THEN 0 ELSE Head(s).sz + SumSz(Tail(s))
 
 BRead ==
+  /\ UNCHANGED LgVars /\ UNCHANGED acc
   /\ bpc = "pop"
   /\ LET t == cache[bi]
          k == Take(q[t], Len(ring[t]), 0, 0)
@@ -228,6 +253,7 @@ MinIdx(c) == LET cand == {i \in 1..Len(c) : ring[c[i]] # <<>>} IN
              ELSE CHOOSE i \in cand : \A j \in cand : Head(ring[c[i]]).ts < Head(ring[c[j]]).ts \/ (Head(ring[c[i]]).ts = Head(ring[c[j]]).ts /\ i <= j)
 
 BProc ==
+  /\ UNCHANGED LgVars /\ UNCHANGED acc
   /\ bpc = "proc"
   /\ LET i == MinIdx(cache) IN
      IF i = 0
@@ -242,8 +268,9 @@ BProc ==
                   /\ bad' = Fail(/\ \A j \in 1..Len(written) : written[j].id # e.id
                                  /\ \A j \in 1..Len(written) : written[j].t = e.t => written[j].id < e.id
                                  /\ e.id \notin dropped
+                                 /\ lgPresent[e.lg]
                                  /\ (Grace > 0 /\ ~anyLate /\ written # <<>>) => written[Len(written)].ts <= e.ts,
-                                 "C03/C05/C08: duplicate, out of thread order, dropped-yet-written or out of timestamp order")
+                                 "C03/C05/C08/C17: duplicate, out of thread order, dropped-yet-written, through a freed logger, or out of timestamp order")
                   /\ bpc' = "popped"
                   /\ Step("B", "proc", <<t>>, <<[k |-> "write", s |-> "S0", id |-> e.id, lvl |-> 4, ts |-> e.ts, thr |-> FALSE]>>)
              ELSE \* flush request: flush every sink, remember whom to notify
@@ -255,6 +282,7 @@ BProc ==
 
 \* from the hook after pop_front to the next yield point (single: poll end; batch: BATCH_ITER)
 BAfterPop ==
+  /\ UNCHANGED LgVars /\ UNCHANGED acc
   /\ bpc \in {"popped", "poppedflush"}
   /\ IF bpc = "poppedflush"
      THEN \* clean up invalidated contexts, then release the caller (the flag of the flush whose event was just popped)
@@ -275,6 +303,7 @@ BAfterPop ==
 
 \* batch loop: has_pending...() again (cache reload first); TRUE ends the poll
 BBatchIter ==
+  /\ UNCHANGED LgVars /\ UNCHANGED acc
   /\ bpc = "batchiter"
   /\ cache' = Reload(cache) /\ newFlag' = FALSE
   /\ bpc' = IF HasPending(Reload(cache)) THEN "start" ELSE "proc"
@@ -284,12 +313,14 @@ BBatchIter ==
 
 \* idle branch, one action per hook
 BIdle0 ==      \* force flush all sinks
+  /\ UNCHANGED LgVars /\ UNCHANGED acc
   /\ bpc = "idle0" /\ bpc' = "idle1" /\ flushedTo' = Len(written)
   /\ UNCHANGED <<now, fpc, cur, nlog, nflush, need, flag, q, wpos, rpos, rpub, fail, valid, reg, ctxs, newFlag, invalidCnt, cache, ring,
                  bi, tsNow, batchMode, lastIdle, flushWho, written, nid, dropped, reported, anyLate, bad>>
   /\ Step("B", "idle0", <<>>, <<[k |-> "sflush", s |-> "S0", thr |-> FALSE]>>)
 
 BIdle1 ==      \* report and reset failure counters of the cached contexts
+  /\ UNCHANGED LgVars /\ UNCHANGED acc
   /\ bpc = "idle1" /\ bpc' = "idle2"
   /\ LET rep == IF Bounded THEN SumFail(Range(cache)) ELSE 0 IN
      /\ reported' = reported + (IF Dropping THEN rep ELSE 0)
@@ -299,6 +330,7 @@ BIdle1 ==      \* report and reset failure counters of the cached contexts
                  tsNow, batchMode, lastIdle, flushWho, written, flushedTo, nid, dropped, anyLate, bad>>
 
 BIdle2 ==      \* are all queues and rings empty? (cache reload first)
+  /\ UNCHANGED LgVars /\ UNCHANGED acc
   /\ bpc = "idle2"
   /\ cache' = Reload(cache) /\ newFlag' = FALSE
   /\ bpc' = IF \A i \in 1..Len(Reload(cache)) : q[Reload(cache)[i]] = <<>> /\ ring[Reload(cache)[i]] = <<>> THEN "idle3" ELSE "start"
@@ -306,25 +338,39 @@ BIdle2 ==      \* are all queues and rings empty? (cache reload first)
                  batchMode, lastIdle, flushWho, written, flushedTo, nid, dropped, reported, anyLate, bad>>
   /\ Step("B", "idle2", <<>>, <<>>)
 
-BIdle3 ==      \* clean up invalidated contexts (and loggers, and shrink rings); the poll ends
+AllEmptyNow(c) == \A i \in 1..Len(c) : q[c[i]] = <<>> /\ ring[c[i]] = <<>>
+BIdle3 ==      \* clean up invalidated contexts, then invalidated loggers (and shrink rings); the poll ends
   /\ bpc = "idle3" /\ bpc' = "start" /\ lastIdle' = TRUE
   /\ LET rem == IF invalidCnt # 0 THEN Removable(cache, ring) ELSE {}
-         rep == IF ReportOnRemove /\ Bounded /\ Dropping THEN SumFail(rem) ELSE 0 IN
-     /\ cache' = Without(cache, rem) /\ ctxs' = Without(ctxs, rem)
+         rep == IF ReportOnRemove /\ Bounded /\ Dropping THEN SumFail(rem) ELSE 0
+         c1 == Without(cache, rem)
+         \* cleanup_invalidated_loggers(check): every invalid logger is freed iff all queues and rings are empty - re-checked
+         \* (with a cache reload) for each of them, or taken from the check the poll made before (the variant the code must not be)
+         pend == {l \in Loggers : lgPresent[l] /\ ~lgValid[l]}
+         doLg == hasInval
+         c2 == IF doLg /\ RecheckOnRemove /\ pend # {} THEN Reload(c1) ELSE c1
+         emptyNow == IF RecheckOnRemove THEN AllEmptyNow(c2) ELSE TRUE
+         gone == IF doLg /\ emptyNow THEN pend ELSE {} IN
+     /\ cache' = c2 /\ ctxs' = Without(ctxs, rem)
+     /\ newFlag' = IF doLg /\ RecheckOnRemove /\ pend # {} THEN FALSE ELSE newFlag
      /\ invalidCnt' = invalidCnt - Cardinality(rem)
      /\ fail' = [t \in Threads |-> IF t \in rem /\ ReportOnRemove THEN 0 ELSE fail[t]]
      /\ reported' = reported + rep
+     /\ lgPresent' = [l \in Loggers |-> lgPresent[l] /\ l \notin gone]
+     /\ hasInval' = IF doLg THEN (pend \ gone) # {} ELSE hasInval
+     /\ UNCHANGED lgValid
      \* C20 on the model: after an idle poll that found everything empty, retained contexts = live threads that logged
      /\ bad' = Fail((\A t \in Threads : q[t] = <<>> /\ ring[t] = <<>> /\ ~newFlag) =>
                       Range(Without(ctxs, rem)) = {t \in Threads : reg[t] /\ valid[t]},
                     "C20: a dead thread's context is retained (or a live one removed) after an idle poll")
-     /\ Step("B", "idle3", <<>>, IF rep > 0 THEN <<[k |-> "notify", cls |-> "dropped", n |-> rep]>> ELSE <<>>)
-  /\ UNCHANGED <<now, fpc, cur, nlog, nflush, need, flag, q, wpos, rpos, rpub, valid, reg, newFlag, ring, bi, tsNow, batchMode, flushWho, written,
-                 flushedTo, nid, dropped, anyLate>>
+     /\ Step("B", "idle3", <<>>, (IF rep > 0 THEN <<[k |-> "notify", cls |-> "dropped", n |-> rep]>> ELSE <<>>)
+                                  \o (IF gone # {} THEN <<[k |-> "loggercount", n |-> Cardinality({l \in Loggers : lgPresent[l]} \ gone)]>> ELSE <<>>))
+  /\ UNCHANGED <<now, fpc, cur, nlog, nflush, need, flag, q, wpos, rpos, rpub, valid, reg, ring, bi, tsNow, batchMode, flushWho, written,
+                 flushedTo, acc, nid, dropped, anyLate>>
 
-Next == \/ \E t \in Threads : \/ \E sz \in Sizes : LogStart(t, sz)
+Next == \/ \E t \in Threads : \/ \E sz \in Sizes, l \in Loggers : LogStart(t, sz, l)
                               \/ Enqueue(t) \/ Retry(t) \/ FlushStart(t) \/ FlushCheck(t) \/ ThreadExit(t)
-        \/ Tick \/ BStart \/ BRead \/ BProc \/ BAfterPop \/ BBatchIter \/ BIdle0 \/ BIdle1 \/ BIdle2 \/ BIdle3
+        \/ (\E l \in Loggers : RemoveLogger(l)) \/ Tick \/ BStart \/ BRead \/ BProc \/ BAfterPop \/ BBatchIter \/ BIdle0 \/ BIdle1 \/ BIdle2 \/ BIdle3
 Spec == Init /\ [][Next]_vars
 BackendNext == BStart \/ BRead \/ BProc \/ BAfterPop \/ BBatchIter \/ BIdle0 \/ BIdle1 \/ BIdle2 \/ BIdle3
 FairSpec == Spec /\ WF_vars(BackendNext) /\ \A t \in Threads : WF_vars(Retry(t)) /\ WF_vars(FlushCheck(t)) /\ WF_vars(Enqueue(t))
@@ -338,7 +384,7 @@ NoStall == \A t \in Threads : (fpc[t] = "blocked" /\ q[t] = <<>> /\ ring[t] = <<
 Quiet == bpc = "start" /\ lastIdle /\ \A t \in Threads : fpc[t] \in {"idle", "done"} /\ q[t] = <<>> /\ ring[t] = <<>> /\ fail[t] = 0
 DropsAddUp == (Bounded /\ Dropping /\ Quiet) => reported = Cardinality(dropped)
 \* C03: at quiet points everything accepted has been written
-AllDelivered == Quiet => \A t \in Threads : TRUE
+AllDelivered == Quiet => \A id \in acc : \E i \in 1..Len(written) : written[i].id = id
 TypeOK == /\ \A t \in Threads : wpos[t] >= rpos[t] /\ rpos[t] >= rpub[t] /\ (Bounded => wpos[t] - rpub[t] <= Cap)
           /\ flushedTo <= Len(written) /\ invalidCnt >= 0
 \* liveness (FairSpec): a blocked call resumes, a flush returns, every enqueued statement is written
@@ -346,6 +392,7 @@ Resumes == \A t \in Threads : (fpc[t] = "blocked" /\ cur[t].sz <= Cap) ~> (fpc[t
 FlushReturns == \A t \in Threads : (fpc[t] = "flushwait") ~> (fpc[t] = "idle")
 
 StateView == <<now, fpc, cur, nlog, nflush, need, flag, q, wpos, rpos, rpub, fail, valid, reg, ctxs, newFlag, invalidCnt,
-               cache, ring, bpc, bi, tsNow, batchMode, lastIdle, flushWho, written, flushedTo, nid, dropped, reported, anyLate, bad>>
+               cache, ring, bpc, bi, tsNow, batchMode, lastIdle, flushWho, written, flushedTo, lgValid, lgPresent, hasInval, acc,
+               nid, dropped, reported, anyLate, bad>>
 ExportA == Export => PrintT("BEH " \o ToJson(hist'))
 =============================================================================
